@@ -132,6 +132,12 @@ class Builder(object):
         self.ctx.symbols[name] = _SeqModelReader(n, arr)
         return seq
 
+    def opaque_regex(self, name):
+        from .stubs import RegexStub
+        r = RegexStub("<configured pattern %s>" % name)
+        r.opaque_predicate = True
+        return r
+
     def spy(self, ghost, obj, method):
         """Native replay wraps obj.method to log calls into ghost['delegated']; symbolically the callee's
         call-site summary does the logging."""
